@@ -230,7 +230,8 @@ static bool modelsEqual(const Model& a, const Model& b)
 
 static bool oneOp(C& a, Model& ma, C& b, Model& mb)
 {
-  unsigned op = vf_pick(ma.n ? 14 : 9);
+  unsigned op = vf_pick(ma.n ? 15 : 10);
+  if(op == (ma.n ? 14u : 9u)) { doInsert(b, mb, 0, 0); return true; }      // an entry for the other table (e.g. after a swap)
   switch(op)
   {
   case 0: return false;
